@@ -5,6 +5,20 @@ V = os.path.dirname(os.path.dirname(os.path.abspath(__file__)))
 ALL = [f"C{i:02d}" for i in range(1, 21)]
 
 CLAIMS = {
+ "C19": dict(
+   engine="tie-C-ds",
+   technique="Lean 4 refinement theorems (index model -> abstract multimap, all op sequences, all interleavings of atomic steps) + op-sequence correspondence (tie C)",
+   text="Lean 4 theorems, kernel-checked for all operation sequences: the model of every index type (hash-vector, full, lattice, no-index, "
+        "their DashMap-based concurrent counterparts, the combined view) refines an abstract multimap/set/map: lookups after any insert sequence, "
+        "iteration returns every entry once, the merge law total'=total+delta, delta'=new, new'=empty through both swap branches, freeze/unfreeze "
+        "preserve contents and exactly the wrong-state operations panic, concurrent inserts are order-independent (every interleaving of the atomic "
+        "shard-locked steps), insert-if-absent has exactly one winner per absent key in every interleaving, and CRelNoIndex's zip-merge keeps everything "
+        "iff `from` has no more shards than `to` (counter-witness proved). The hand-written model is tied to the real code on every run by running "
+        "hundreds of generated op scenarios (incl. forced </=/> merges, wrong-state panics, rayon iterators, multi-threaded phases and racing "
+        "insert-if-absent rounds) through the real index types and the Lean driver and diffing, with an independent multimap oracle.",
+   design_ref="DESIGN.md §8 C19",
+   note="Lean kernel; axioms propext/Classical.choice/Quot.sound; partial for the concurrent half: DashMap shard-lock atomicity, real memory "
+        "ordering and the unsafe shard access are assumptions of the interleaving theorems, exercised by multi-threaded runs but not proved."),
  "C16": dict(
    engine="tie-C-ds",
    technique="Lean 4 theorems (LawfulLat for every shipped lattice type, compositional over nesting) + exhaustive pair correspondence (tie C)",
